@@ -78,7 +78,11 @@ ChainFails(e) ==
   ELSE F(e.o1 = "value" /\ e.o2 = "value", "a widening conversion or its way back is not available")
     \o (IF e.o1 = "value" /\ e.o2 = "value" THEN F(e.r2.t = e.v.t /\ e.r2.s = e.v.s, "a widening conversion does not round-trip to the original value") ELSE "")
 
-Fails(e) == CASE e.op = "conv" -> ConvFails(e) [] e.op = "both" -> BothFails(e) [] e.op = "chain" -> ChainFails(e) [] OTHER -> ""
+AliasFails(e) ==
+  IF e.o1 = "panic" \/ e.o2 = "panic" THEN "a conversion crashed; "
+  ELSE IF ~e.scribbled THEN ""
+  ELSE F(e.o2 = e.o1 /\ e.r2.t = e.r1.t /\ e.r2.s = e.r1.s, "a conversion hands out a shared result: what a caller does to one result changes later results")
+Fails(e) == CASE e.op = "alias" -> AliasFails(e) [] e.op = "conv" -> ConvFails(e) [] e.op = "both" -> BothFails(e) [] e.op = "chain" -> ChainFails(e) [] OTHER -> ""
 Init == l = 1
 Next ==
   /\ l <= Len(Trace)
